@@ -2,7 +2,7 @@
 # tools/bg.sh <tier> <seed> [<seed>...]  — for `vp run --with-repo -- tools/bg.sh thorough 1`.
 # Runs every registered check of this snapshot of /verif against the snapshot of /repo's
 # HEAD ($VP_RUN_REPO), so edits made to /repo meanwhile (seeded patches) do not disturb it.
-# One line per check and seed; nothing it writes is evidence.
+# One line per check and seed; nothing it writes is evidence. IDS="C05 C07" restricts the checks.
 TIER=${1:-quick}; shift
 HERE="$(cd "$(dirname "$0")/.." && pwd)"
 cd "$HERE" || exit 2
@@ -11,7 +11,7 @@ if [ -n "${VP_RUN_REPO:-}" ]; then sed -i "s#\"/repo/#\"$VP_RUN_REPO/#" harness/
 RC=0
 for SEED in "$@"; do
   export VERIF_SEED=$SEED
-  for ID in $(python3 -c "import json;print(' '.join(c['property_id'] for c in json.load(open('MANIFEST.json'))['checks']))"); do
+  for ID in ${IDS:-$(python3 -c "import json;print(' '.join(c['property_id'] for c in json.load(open('MANIFEST.json'))['checks']))")}; do
     S=$(date +%s); ./check $ID $TIER > out/bg_${ID}_$SEED.log 2>&1; E=$?
     echo "seed=$SEED $ID exit=$E $(( $(date +%s)-S ))s $(grep -c '^KNOWN-FINDING' out/bg_${ID}_$SEED.log) known $(grep -m1 '^VIOLATION' out/bg_${ID}_$SEED.log)"
     [ $E -ne 0 ] && RC=1 && cp -r out/$ID out/bg_fail_${ID}_$SEED 2>/dev/null
